@@ -8,8 +8,11 @@ Second layer of the theme model (property C20, deepening round):
 * several threads: `Console._theme_stack` is `self._thread_locals.theme_stack`, a field of a
   `threading.local` dataclass.  `threading.local` re-runs `__init__` in every new thread *with the
   arguments of the original construction*, i.e. with the very same `ThemeStack` object: the stack is
-  shared by all threads (variant flag `shared = true`, the code as found).  `shared = false` is the
-  minimally repaired behaviour: one `ThemeStack` per thread over the same base theme;
+  shared by all threads (variant flag `shared = true`: what the code does, and what a `Live` /
+  `Progress` refresh thread relies on to see the themes the main thread pushed — not a defect, and
+  outside property C20, which is about single-threaded histories).  `shared = false` is a
+  hypothetical variant with one `ThemeStack` per thread over the same base theme, kept to document
+  the difference;
 * `get_style`'s `style.copy() if style.link else style`: which results are fresh objects (new link id).
 -/
 namespace RichModel.Theme
